@@ -18,6 +18,7 @@ Service requests (parsing, handling, etc).
 """
 import codecs
 import re
+import math
 from mapproxy.request.wms import exception
 from mapproxy.exception import RequestError
 from mapproxy.srs import SRS, make_lin_transf
@@ -236,7 +237,8 @@ class WMSMapRequest(WMSRequest):
 
     def validate_bbox(self):
         x0, y0, x1, y1 = self.params.bbox
-        if x0 >= x1 or y0 >= y1:
+        # also rejects NaN (every comparison is false) and infinite values
+        if not (x0 < x1 and y0 < y1) or not all(math.isfinite(v) for v in (x0, y0, x1, y1)):
             raise RequestError('invalid bbox ' + self.params.get('bbox', None),
                                request=self)
 
